@@ -733,7 +733,6 @@ class unyt_array(np.ndarray):
                     new_units, self.dtype
                 )
 
-            self.units = new_units
             values = self.d
             # if our dtype is an integer do the following somewhat awkward
             # dance to change the dtype in-place. We can't use astype
@@ -765,6 +764,7 @@ class unyt_array(np.ndarray):
                 # actually fill in the new float values now that our
                 # dtype is correct
                 np.copyto(values, float_values)
+            self.units = new_units
             values *= conv_factor
 
             if offset:
